@@ -557,7 +557,7 @@ Proof.
   assert (Idle1 : wr_idle c1 d).
   { unfold c1. match goal with |- context [(c_out_status ?x =? _)%Z] => change (c_out_status x) with (c_out_status c0) end. rewrite Host. change ((c_HTP_STREAM_OPEN =? c_HTP_STREAM_DATA_OTHER)%Z) with false. cbv iota.
     constructor; try assumption; reflexivity. }
-  replace (rq_fuel (length d)) with (S (S (S (S (S (S (S (S (4 * length d + 56))))))))) by (unfold rq_fuel; lia).
+  replace (rq_fuel (length d)) with (S (S (S (S (S (S (S (S (16 * length d + 8))))))))) by (unfold rq_fuel; lia).
   (* 1 *)
   destruct (wr_pass_idle c1 d Idle1 Hne) as (c2 & E1 & Inv2). rewrite wr_rq_loop_S, E1.
   (* 2 *)
